@@ -144,6 +144,9 @@ impl Ctx {
             "none" => {}
             "cmd_requote" => cmd_extra = vec!["a\",\"b".to_string()],
             "cmd_split" => cmd_extra = vec!["a".to_string(), "b".to_string()],
+            // the same words distributed differently over the arguments / an empty argument more
+            "cmd_respace" => cmd_extra = vec!["a b".to_string()],
+            "cmd_empty_arg" => cmd_extra = vec!["a".to_string(), String::new(), "b".to_string()],
             "product" => {
                 prods.insert("zz.extra".into(), {
                     let mut t = HashMap::new();
@@ -252,8 +255,13 @@ impl Ctx {
                     s.expected_command = Command::from("something else");
                 }
             }
-            "cmd_requote" | "cmd_split" => {
-                let extra: Vec<String> = if variant == "cmd_requote" { vec!["a\",\"b".to_string()] } else { vec!["a".to_string(), "b".to_string()] };
+            "cmd_requote" | "cmd_split" | "cmd_respace" | "cmd_empty_arg" => {
+                let extra: Vec<String> = match variant {
+                    "cmd_requote" => vec!["a\",\"b".to_string()],
+                    "cmd_respace" => vec!["a b".to_string()],
+                    "cmd_empty_arg" => vec!["a".to_string(), String::new(), "b".to_string()],
+                    _ => vec!["a".to_string(), "b".to_string()],
+                };
                 if let Some(s) = steps.first_mut() {
                     let mut c = vec![format!("c.{}", s.name)];
                     c.extend(extra);
@@ -345,7 +353,7 @@ impl Ctx {
         }
         let edit = d["edit"].as_str().unwrap_or("none");
         // a "requote" edit ships the split form of what was signed in joined form
-        let shipped = self.wrapper(d, if edit == "cmd_requote" { "cmd_split" } else { "none" });
+        let shipped = self.wrapper(d, if matches!(edit, "cmd_requote" | "cmd_respace" | "cmd_empty_arg") { "cmd_split" } else { "none" });
         let mut signed_over = self.wrapper(d, edit);
         // a layout whose text spells `expires` in another notation is signed the way its owner would
         // sign it with this library: parse the notated text, sign what was parsed
@@ -455,7 +463,16 @@ impl Ctx {
                 }
                 std::fs::create_dir_all(&p).unwrap();
                 for f in dir["files"].as_array().unwrap() {
-                    let name = format!("{}.{}.link", f["step"].as_str().unwrap(), &self.km.idstr(f["fkey"].as_str().unwrap())[0..8]);
+                    // the eight characters between step name and ".link": a key-id prefix - or, for "<key>:dots" /
+                    // "<key>:trunc3", eight characters that the loader's trimming shortens (dots only; three
+                    // characters of the id followed by ".link")
+                    let fk = f["fkey"].as_str().unwrap();
+                    let field = match fk.split_once(':') {
+                        Some((_, "dots")) => "........".to_string(),
+                        Some((k, "trunc3")) => format!("{}.link", &self.km.idstr(k)[0..3]),
+                        _ => self.km.idstr(fk)[0..8].to_string(),
+                    };
+                    let name = format!("{}.{}.link", f["step"].as_str().unwrap(), field);
                     let path = p.join(name);
                     let old = if keep_mtime { std::fs::metadata(&path).ok().and_then(|m| m.modified().ok()) } else { None };
                     std::fs::write(&path, &which[f["doc"].as_u64().unwrap() as usize - 1]).unwrap();
